@@ -62,3 +62,16 @@ def listing(path):
         return sorted(os.listdir(path))
     except FileNotFoundError:
         return []
+
+
+_SCRUB = None
+
+
+def excmsg(e, n=80):
+    """Exception text as an observation: scratch paths and temp-file names (random per run) are scrubbed so that
+    the same schedule yields the same observation on every replay."""
+    global _SCRUB
+    if _SCRUB is None:
+        import re
+        _SCRUB = re.compile(r"(/dev/shm|/tmp|/var/tmp)/[^\s'\"]*|\btmp[a-z0-9_]{6,}\b")
+    return _SCRUB.sub('<scratch>', str(e))[:n]
